@@ -288,3 +288,215 @@ async fn acc_many_stale_then_live() {
         drop(client);
     }
 }
+
+// ---- A.tls.accept_garbage: the TLS acceptor in front of a transport whose streams are readable AT ONCE ----
+/// Inner acceptor: every stream put into the channel is an incoming connection.  The streams are in-memory pipes,
+/// so whatever the peer wrote before the server accepts is readable in the very first poll (with sockets the same
+/// situation is a race against the I/O driver).
+#[cfg(feature = "tls")]
+struct QueueAccept(tokio::sync::mpsc::UnboundedReceiver<duplex::DuplexStream>);
+#[cfg(feature = "tls")]
+impl crate::server::conn::Accept for QueueAccept {
+    type Conn = duplex::DuplexStream;
+    type Error = std::io::Error;
+    fn poll_accept(mut self: Pin<&mut Self>, cx: &mut Context<'_>) -> Poll<Result<Self::Conn, Self::Error>> {
+        match self.0.poll_recv(cx) {
+            Poll::Ready(Some(stream)) => Poll::Ready(Ok(stream)),
+            Poll::Ready(None) => Poll::Ready(Err(std::io::ErrorKind::ConnectionAborted.into())),
+            Poll::Pending => Poll::Pending,
+        }
+    }
+}
+
+/// The fixture certificate of the repository has a fixed validity period; the scenario is about the accept loop, not
+/// about certificates: accept whatever the server presents (signatures are still checked).
+#[cfg(feature = "tls")]
+#[derive(Debug)]
+struct AnyCert(std::sync::Arc<rustls::crypto::CryptoProvider>);
+#[cfg(feature = "tls")]
+impl rustls::client::danger::ServerCertVerifier for AnyCert {
+    fn verify_server_cert(
+        &self,
+        _end_entity: &rustls::pki_types::CertificateDer<'_>,
+        _intermediates: &[rustls::pki_types::CertificateDer<'_>],
+        _server_name: &rustls::pki_types::ServerName<'_>,
+        _ocsp: &[u8],
+        _now: rustls::pki_types::UnixTime,
+    ) -> Result<rustls::client::danger::ServerCertVerified, rustls::Error> {
+        Ok(rustls::client::danger::ServerCertVerified::assertion())
+    }
+    fn verify_tls12_signature(
+        &self,
+        message: &[u8],
+        cert: &rustls::pki_types::CertificateDer<'_>,
+        dss: &rustls::DigitallySignedStruct,
+    ) -> Result<rustls::client::danger::HandshakeSignatureValid, rustls::Error> {
+        rustls::crypto::verify_tls12_signature(message, cert, dss, &self.0.signature_verification_algorithms)
+    }
+    fn verify_tls13_signature(
+        &self,
+        message: &[u8],
+        cert: &rustls::pki_types::CertificateDer<'_>,
+        dss: &rustls::DigitallySignedStruct,
+    ) -> Result<rustls::client::danger::HandshakeSignatureValid, rustls::Error> {
+        rustls::crypto::verify_tls13_signature(message, cert, dss, &self.0.signature_verification_algorithms)
+    }
+    fn supported_verify_schemes(&self) -> Vec<rustls::SignatureScheme> {
+        self.0.signature_verification_algorithms.supported_schemes()
+    }
+}
+
+/// what a misbehaving peer has done by the time the server accepts its connection
+#[cfg(feature = "tls")]
+#[derive(Debug, Clone, Copy)]
+enum BadPeer {
+    /// these bytes are readable, then end-of-stream
+    BytesThenEof(&'static [u8]),
+    /// these bytes are readable, then the peer stays connected and silent for the rest of the test
+    BytesThenSilence(&'static [u8]),
+}
+
+#[cfg(feature = "tls")]
+const BAD_PEERS: &[(&str, BadPeer)] = &[
+    ("a plaintext HTTP request", BadPeer::BytesThenSilence(b"GET / HTTP/1.1\r\nHost: example.com\r\n\r\n")),
+    ("a plaintext HTTP request, then gone", BadPeer::BytesThenEof(b"GET / HTTP/1.1\r\nHost: example.com\r\n\r\n")),
+    ("gone before the accept (end-of-stream)", BadPeer::BytesThenEof(b"")),
+    ("binary garbage", BadPeer::BytesThenSilence(&[0xff; 64])),
+    ("a handshake record of impossible length", BadPeer::BytesThenSilence(&[0x16, 0x03, 0x01, 0xff, 0xff, 0x01, 0x02, 0x03])),
+    ("an alert instead of a hello", BadPeer::BytesThenSilence(&[0x15, 0x03, 0x03, 0x00, 0x02, 0x02, 0x28])),
+    ("the start of a hello, then gone", BadPeer::BytesThenEof(&[0x16, 0x03, 0x01, 0x00, 0xc8, 0x01, 0x00, 0x00])),
+    ("half a record header, then silence (stalled)", BadPeer::BytesThenSilence(&[0x16, 0x03])),
+    ("nothing at all (stalled)", BadPeer::BytesThenSilence(b"")),
+];
+
+/// A.tls.accept_garbage [C09] (bounded stand-in for `TlsAcceptor::poll_accept` -> `Stream::from(TlsStream)` ->
+/// `Serving::poll_once`, the accept path of a TLS server: pin-projected enums and `.into()` chains the contracts
+/// do not reach): a connection whose TLS handshake is bound to fail or to stall - garbage, end-of-stream, a truncated
+/// hello ALREADY readable when the server accepts it - neither panics in the accept path, nor ends the serving
+/// future, nor keeps the next, well-behaved TLS client (hello already readable, or sent later) from being served.
+#[cfg(feature = "tls")]
+#[tokio::test]
+async fn standin_tls_accept_garbage() {
+    use crate::info::HasConnectionInfo as _;
+    use crate::server::conn::tls::TlsAcceptor;
+    use http_body_util::BodyExt as _;
+    use std::future::IntoFuture as _;
+    use std::sync::Arc;
+    use std::time::Duration;
+    use tokio::io::{AsyncReadExt as _, AsyncWriteExt as _};
+
+    crate::fixtures::tls_install_default();
+    let server_config = Arc::new(crate::fixtures::tls_server_config());
+    let client_config = {
+        let mut cfg = crate::fixtures::tls_client_config();
+        let provider = rustls::crypto::CryptoProvider::get_default().expect("crypto provider installed").clone();
+        cfg.dangerous().set_certificate_verifier(Arc::new(AnyCert(provider)));
+        cfg.alpn_protocols = vec![b"http/1.1".to_vec()];
+        Arc::new(cfg)
+    };
+
+    async fn preloaded(peer: BadPeer) -> (Option<duplex::DuplexStream>, duplex::DuplexStream) {
+        let (mut theirs, ours) = duplex::DuplexStream::new(4096);
+        match peer {
+            BadPeer::BytesThenEof(bytes) => {
+                theirs.write_all(bytes).await.unwrap();
+                drop(theirs);
+                (None, ours)
+            }
+            BadPeer::BytesThenSilence(bytes) => {
+                theirs.write_all(bytes).await.unwrap();
+                (Some(theirs), ours)
+            }
+        }
+    }
+
+    // (1) a whole server: after each misbehaving connection a well-behaved TLS client is served
+    let (incoming, connections) = tokio::sync::mpsc::unbounded_channel();
+    let server = crate::server::Server::builder()
+        .with_acceptor(crate::server::conn::Acceptor::new(QueueAccept(connections)).with_tls(server_config.clone()))
+        .with_auto_http()
+        .with_shared_service(tower::service_fn(|req: http::Request<crate::Body>| async move {
+            let data = req.into_body().collect().await?.to_bytes();
+            Ok::<_, crate::BoxError>(http::Response::new(crate::Body::from(data)))
+        }))
+        .with_tokio();
+    let serving = tokio::spawn(server.into_future());
+
+    let mut still_connected = Vec::new();
+    for (n, (what, peer)) in BAD_PEERS.iter().enumerate() {
+        let (theirs, ours) = preloaded(*peer).await;
+        incoming.send(ours).expect("the server dropped its acceptor");
+        // give the server the chance to accept it and to fail its handshake: a peer that is still connected sees the
+        // connection closed (or a TLS alert) once that has happened; for the stalled ones there is nothing to wait for
+        if let Some(mut theirs) = theirs {
+            let mut sink = [0u8; 64];
+            let _ = tokio::time::timeout(Duration::from_millis(200), theirs.read(&mut sink)).await;
+            still_connected.push(theirs);
+        } else {
+            for _ in 0..20 { tokio::task::yield_now().await; }
+        }
+        assert!(!serving.is_finished(), "peer sent {what}: the serving future ended ({:?})", serving.await.map(|r| r.map_err(|e| e.to_string())));
+
+        // the well-behaved client; every other time its hello is already readable when the server accepts
+        let hello_first = n % 2 == 0;
+        let (good, good_server_side) = duplex::DuplexStream::new(4096);
+        let connector = tokio_rustls::TlsConnector::from(client_config.clone());
+        let mut connect = Box::pin(connector.connect("example.com".try_into().unwrap(), good));
+        if hello_first {
+            assert!(futures_util::poll!(&mut connect).is_pending()); // the hello is written by the first poll
+        }
+        incoming.send(good_server_side).expect("the server dropped its acceptor");
+        let tls = tokio::time::timeout(Duration::from_secs(10), connect)
+            .await
+            .unwrap_or_else(|_| panic!("after a peer that sent {what}: the next client's TLS handshake got no answer within 10 s - the server does not accept connections any more (serving future finished: {})", serving.is_finished()))
+            .unwrap_or_else(|e| panic!("after a peer that sent {what}: the next client's TLS handshake failed: {e}"));
+        let (mut send, conn) = hyper::client::conn::http1::Builder::new()
+            .handshake::<_, crate::Body>(crate::bridge::io::TokioIo::new(tls))
+            .await
+            .expect("http/1 client handshake");
+        let driver = tokio::spawn(conn);
+        let request = http::Request::builder()
+            .method(http::Method::POST)
+            .uri("/hello")
+            .header(http::header::HOST, "example.com")
+            .body(crate::Body::from(format!("hello {n}")))
+            .unwrap();
+        let response = tokio::time::timeout(Duration::from_secs(10), send.send_request(request))
+            .await
+            .unwrap_or_else(|_| panic!("after a peer that sent {what}: the next client's request got no response within 10 s"))
+            .unwrap_or_else(|e| panic!("after a peer that sent {what}: the next client's request failed: {e}"));
+        assert_eq!(response.status(), http::StatusCode::OK, "after a peer that sent {what}");
+        let data = response.into_body().collect().await.expect("response body").to_bytes();
+        assert_eq!(&*data, format!("hello {n}").as_bytes(), "after a peer that sent {what}");
+        println!("peer sent {what:50} -> next TLS client (hello {}) served", if hello_first { "already readable" } else { "sent later" });
+        driver.abort();
+    }
+    assert!(!serving.is_finished(), "the serving future ended");
+    serving.abort();
+    drop(still_connected);
+
+    // (2) the accept step itself, without a server around it: the acceptor hands the connection on and the accept loop can ask for its info
+    for (what, peer) in BAD_PEERS {
+        let (_keep, ours) = preloaded(*peer).await;
+        let mut acc = TlsAcceptor::new(server_config.clone(), ScriptAccept(vec![Poll::Ready(Ok(ours))], 0));
+        let accepted = std::panic::catch_unwind(std::panic::AssertUnwindSafe(|| {
+            let waker = futures_util::task::noop_waker();
+            let mut cx = Context::from_waker(&waker);
+            match Pin::new(&mut acc).poll_accept(&mut cx) {
+                Poll::Ready(Ok(stream)) => {
+                    let _ = stream.info();
+                    // what `Acceptor<A>::poll_accept` does with it
+                    let _ = crate::server::conn::Stream::from(stream).info();
+                    Ok(())
+                }
+                Poll::Ready(Err(e)) => Err(format!("the listener is intact, but accepting reported {e}")),
+                Poll::Pending => Err("the listener had a connection, but accepting is pending".to_string()),
+            }
+        }));
+        match accepted {
+            Ok(Ok(())) => {}
+            Ok(Err(why)) => panic!("peer sent {what}: {why}"),
+            Err(_) => panic!("peer sent {what}: the accept path panicked (inside the serving future this ends the server)"),
+        }
+    }
+}
